@@ -27,6 +27,10 @@ RULE = ("random valid screens (arity 1-3, 0..n_max rows, non-ASCII/astral/empty/
         "arange); 15% of the screens have names / control name with leading, trailing or only whitespace (space, tab, newline, U+3000), "
         "12% have long ROW names of unequal length (17..130 characters). A fixed corpus (zero-row witness, "
         "every layout on a position-sensitive screen, long mapping names) runs first on every invocation. "
+        "Hardening classes (counted as class.*): object reuse (same object saved again, same file loaded twice), input mutation (all "
+        "instance attributes of the saved object snapshotted), attribute completeness (vars(), every property of the class and every h5 "
+        "dataset/attribute by enumeration; files of cycle k equal the file of cycle 1), hand-made mappings always >= 2 cycles, 6% screens "
+        "with >= 11 samples/plates/treatments with numeric suffixes, up to 10 saved files re-loaded in another interpreter (other PYTHONHASHSEED). "
         "Non-trivial: >= 2 rows and (superset mapping or non-ASCII name or both observed and unobserved plates).")
 
 OBS_VALUES = [0.0, -0.0, 1.0, 0.5, 0.25, 0.1, 0.3333333333333333, 1e-300, 5e-324, 1e300, 2.0, -1.5, float("inf"),
@@ -272,6 +276,131 @@ def observables(s):
     }
 
 
+def canon(v):
+    """canonical, JSON-able form of an attribute value: floats by bit pattern, every string dtype (U / S-free object) alike,
+    views by their selection vector; used for the introspective comparisons (no hand-written list of fields)"""
+    from batchie.data import ScreenSubset
+    if isinstance(v, ScreenSubset):
+        return [type(v).__name__, canon(v.selection_vector)]
+    if isinstance(v, np.ndarray):
+        k = v.dtype.kind
+        flat = v.ravel(order="C").tolist()
+        if k == "f":
+            vals = [S.bits(x) for x in flat]
+        elif k in "UO":
+            k, vals = "str", [x if isinstance(x, (int, float, bool)) and not isinstance(x, str) else str(x) for x in flat]
+        elif k in "iu":
+            k, vals = "int", [int(x) for x in flat]
+        elif k == "b":
+            vals = [bool(x) for x in flat]
+        else:
+            vals = [repr(x) for x in flat]
+        return [k, list(v.shape), vals]
+    if isinstance(v, (tuple, list)):
+        return [canon(x) for x in v]
+    if isinstance(v, dict):
+        return {str(k): canon(x) for k, x in sorted(v.items(), key=lambda kv: str(kv[0]))}
+    if isinstance(v, (bool, np.bool_)):
+        return bool(v)
+    if isinstance(v, (int, np.integer)):
+        return int(v)
+    if isinstance(v, (float, np.floating)):
+        return ["f", S.bits(v)]
+    if isinstance(v, (str, np.str_)):
+        return ["str", str(v)]
+    if v is None:
+        return None
+    return ["repr", type(v).__name__, repr(v)]
+
+
+def attrs_snapshot(obj):
+    """every INSTANCE attribute (vars()), found by introspection"""
+    return {k: canon(v) for k, v in sorted(vars(obj).items())}
+
+
+def props_snapshot(obj):
+    """every property defined on the class hierarchy, found by introspection; an exception is part of the value"""
+    import logging
+    import warnings
+    out = {}
+    logging.disable(logging.CRITICAL)
+    try:
+      with np.errstate(all="ignore"), warnings.catch_warnings():
+        warnings.simplefilter("ignore")
+        for name in sorted(dir(type(obj))):
+            if name.startswith("__") or not isinstance(getattr(type(obj), name, None), property):
+                continue
+            try:
+                out[name] = canon(getattr(obj, name))
+            except Exception as e:
+                out[name] = ["raises", type(e).__name__]
+    finally:
+        logging.disable(logging.NOTSET)
+    return out
+
+
+def h5_dump(fn):
+    """every dataset and attribute of an h5 file, by enumeration; bytes cells decoded, floats by bits"""
+    import h5py
+    out = {}
+    with h5py.File(fn, "r") as f:
+        for k in sorted(f.keys()):
+            a = f[k][()]
+            a = np.asarray(a)
+            if a.dtype.kind == "S":
+                out["/" + k] = ["S", list(a.shape), [bytes(x).hex() for x in a.ravel().tolist()]]
+            else:
+                out["/" + k] = canon(a)
+        for k in sorted(f.attrs.keys()):
+            out["@" + k] = canon(f.attrs[k])
+    return out
+
+
+def dict_diff(a, b):
+    for k in sorted(set(a) | set(b)):
+        if a.get(k, "<missing>") != b.get(k, "<missing>"):
+            return k, a.get(k, "<missing>"), b.get(k, "<missing>")
+    return None
+
+
+def cross_process_observables(files, hashseed):
+    """load the files in ANOTHER interpreter (other PYTHONHASHSEED) and return their observables"""
+    import json
+    import subprocess
+    import sys
+    code = ("import sys, json; sys.path.insert(0, %r); from harness import c02; from batchie.data import Screen; "
+            "print('XPROC' + json.dumps([c02.observables(Screen.load_h5(f)) for f in %r]))" % (common.VERIF, list(files)))
+    env = dict(os.environ, PYTHONHASHSEED=str(hashseed))
+    p = subprocess.run([sys.executable, "-c", code], env=env, stdout=subprocess.PIPE, stderr=subprocess.PIPE, text=True, timeout=300)
+    for line in p.stdout.splitlines():
+        if line.startswith("XPROC"):
+            return json.loads(line[5:])
+    raise RuntimeError("other interpreter failed: " + p.stderr[-400:])
+
+
+def many_names_raw(rng):
+    """>= 11 distinct samples, plates and treatment names with numeric suffixes: ids get two digits and the sort order of
+    the names (s10 < s2) is not the numeric one"""
+    k = rng.randint(11, 14)
+    n = rng.randint(k, k + 6)
+    a = rng.choice([1, 2])
+    sn = ["s%d" % i for i in range(k)]
+    pn = ["p%d" % (i % 12) for i in range(n)]
+    tn = ["t%d" % i for i in range(k)] + ["control"]
+    rows = list(range(n))
+    raw = dict(ctrl="control", arity=a, tnames=[[rng.choice(tn) for _ in range(a)] for _ in rows],
+               tdoses=[[rng.choice([1.0, 2.5, 0.1]) for _ in range(a)] for _ in rows],
+               snames=[sn[i % k] if i < k else rng.choice(sn) for i in rows], pnames=pn,
+               obs=[rng.choice(OBS_VALUES) for _ in rows], mask=None, tmap=None, smap=None)
+    st = {p: rng.random() < 0.5 for p in set(pn)}
+    raw["mask"] = [st[p] for p in pn]
+    order = rows[:]
+    rng.shuffle(order)
+    for key in ("tnames", "tdoses", "snames", "pnames", "obs", "mask"):
+        raw[key] = [raw[key][i] for i in order]
+    return raw
+
+
 def space_observables(e):
     return {
         "treatment_mapping": [[str(x) for x in e.treatment_mapping[0]], [S.bits(x) for x in e.treatment_mapping[1]],
@@ -299,7 +428,7 @@ def first_diff(a, b):
 
 
 def gen_case(rng, n_max):
-    raw = S.gen_raw(rng, n_max=n_max, obs_values=OBS_VALUES)
+    raw = S.gen_raw(rng, n_max=n_max, obs_values=OBS_VALUES) if rng.random() >= 0.06 else many_names_raw(rng)
     if raw["obs"] is not None and rng.random() < 0.15 and raw["obs"]:
         i = rng.randrange(len(raw["obs"]))
         raw["obs"][i] = S.from_bits(rng.choice(NAN_BITS))
@@ -341,6 +470,7 @@ def gen_case(rng, n_max):
     if raw.get("tmap") is not None and rng.random() < 0.45:
         raw["tmap"], raw["smap"] = permute_mappings(rng, raw["tmap"], raw["smap"])
         permuted = True
+        cycles = max(cycles, 2)          # ids that are not positions: the second load reads what the first load's save wrote
     if raw.get("tmap") is not None:
         # JSON-able (replay) and independent of numpy scalar types
         raw["tmap"] = ([str(a) for a in raw["tmap"][0]], [float(b) for b in raw["tmap"][1]], [int(c) for c in raw["tmap"][2]])
@@ -378,8 +508,22 @@ def run_screen_case(case, tmp, res, check=True):
     fn = os.path.join(tmp, "s.h5")
     cur = s0
     out = None
+    snap0 = attrs_snapshot(s0) if check else None
+    props0 = props_snapshot(s0) if check else None
+    dump1 = None
     for k in range(case["cycles"]):
         cur.save_h5(fn)
+        if check:
+            # file level, every dataset and attribute by enumeration: the second and later saves write what the first wrote
+            dump = h5_dump(fn)
+            if dump1 is None:
+                dump1 = dump
+            else:
+                d = dict_diff(dump1, dump)
+                if d is not None:
+                    res.fail("the file written in cycle %d differs from the file written in cycle 1 ('%s')" % (k + 1, d[0]), case,
+                             {"entry": d[0], "cycle_%d" % (k + 1): d[2]}, {"entry": d[0], "cycle_1": d[1]})
+                    break
         if check:
             import h5py
             with h5py.File(fn, "r") as f:
@@ -405,6 +549,30 @@ def run_screen_case(case, tmp, res, check=True):
             res.fail("observable '%s' changed after %d save/load cycle(s)" % (d[0], k + 1), case,
                      {"field": d[0], "after": d[2]}, {"field": d[0], "before": d[1]})
             break
+        if check:
+            # attribute completeness: every instance attribute and every property of the class, found by introspection
+            d = dict_diff(snap0, attrs_snapshot(cur)) or dict_diff(props0, props_snapshot(cur))
+            if d is not None:
+                res.fail("attribute / property '%s' (found by introspection) changed after %d save/load cycle(s)" % (d[0], k + 1), case,
+                         {"name": d[0], "after": d[2]}, {"name": d[0], "before": d[1]})
+                break
+    if check and cur is not None and len(raw["snames"]) > 0:
+        # input mutation: saving (any number of times) leaves the saved object untouched
+        d = dict_diff(snap0, attrs_snapshot(s0))
+        if d is not None:
+            res.fail("save_h5 modifies the screen it saves (attribute '%s')" % d[0], case, {"name": d[0], "after": d[2]},
+                     {"name": d[0], "before": d[1]})
+        # object reuse: the same object saved once more (to another path), the same file loaded twice
+        fn2 = os.path.join(tmp, "s_again.h5")
+        try:
+            s0.save_h5(fn2)
+            a, b = observables(Screen.load_h5(fn2)), observables(Screen.load_h5(fn2))
+            d = first_diff(want, a) or first_diff(want, b)
+            if d is not None:
+                res.fail("saving the same screen object again / loading the same file twice gives another screen ('%s')" % d[0], case,
+                         {"field": d[0], "got": d[2]}, {"field": d[0], "original": d[1]})
+        except Exception as e:
+            res.fail("saving the same screen object again raises", case, "%s: %s" % (type(e).__name__, e), "a saved screen")
     if out is None:
         out = show_stage(cur)
     line = "saveloadb %d %s" % (case["cycles"], S.raw_to_tokens(raw))
@@ -480,6 +648,7 @@ def run(ctx, res):
     n_max = 12 if ctx.tier == "quick" else 40
     tmp = tempfile.mkdtemp(prefix="verif_c02_")
     lines, expect, cases, where = [], [], [], []
+    xproc = []                                      # (file, observables, case) re-loaded in another interpreter at the end
     try:
         for t in range(-len(CORPUS), n_cases):
             if t < 0:
@@ -524,8 +693,56 @@ def run(ctx, res):
             if case["kind"] == "superset-mapping" and len(s0.treatment_mapping[0]) > len(set(
                     (a, b) for rn, rd in zip(raw["tnames"], raw["tdoses"]) for a, b in zip(rn, rd))):
                 res.count("mapping.strict-superset")
+            # ---- hardening-checklist classes present in this case ------------------------------------------------
+            n_rows = len(raw["snames"])
+            if n_rows:
+                res.count("class.object-reuse")                    # same object saved again, same file loaded twice
+                res.count("class.input-mutation")                  # saved object snapshotted (all attributes) and compared
+                res.count("class.attribute-completeness")          # vars() + properties + h5 datasets by enumeration
+            if n_rows and (case.get("layout", "c") != "c" or case.get("whitespace") == "long" or
+                           any(len(str(x)) >= 25 for x in (raw.get("tmap") or [[]])[0])):
+                res.count("class.memory-layout-dtype")
+            keys = set((a, float(b)) for rn, rd in zip(raw["tnames"], raw["tdoses"]) for a, b in zip(rn, rd))
+            no_control = n_rows and not any(a == raw["ctrl"] or b <= 0 for a, b in keys)
+            named_pos = any(a == raw["ctrl"] and b > 0 for a, b in keys)
+            if n_rows and (case.get("permuted") or no_control or named_pos or case["kind"] == "superset-mapping"):
+                res.count("class.non-default-ids")
+                if case.get("permuted"):
+                    res.count("class.non-default-ids.permuted-ids-2+cycles")
+                if no_control:
+                    res.count("class.non-default-ids.no-control")
+                if named_pos:
+                    res.count("class.non-default-ids.named-control-positive-dose")
+            if n_rows <= 1 or raw["ctrl"] == "" or (raw["mask"] is not None and not any(raw["mask"])) or "" in names:
+                res.count("class.falsy-boundaries")
+            pn = raw["pnames"]
+            if any(pn[i] != pn[i - 1] and pn[i] in pn[:i - 1] for i in range(2, len(pn))):
+                res.count("class.row-orderings")                   # rows of a plate not contiguous
+            if len(set(raw["snames"])) >= 11:
+                res.count("class.size-boundary.ge-11-names")
+            if n_rows and len(xproc) < 10 and case["kind"] != "fresh" and (case.get("permuted") or len(xproc) < 5):
+                keep = os.path.join(tmp, "xproc_%d.h5" % len(xproc))
+                try:
+                    s0.save_h5(keep)
+                    xproc.append((keep, observables(s0) if case.get("layout", "c") == "c" else observables(S.build(
+                        dict(raw, obs=[S.from_bits(b) for b in case["obs_bits"]] if case["obs_bits"] is not None else None))), case))
+                except Exception:
+                    pass
             if rng.random() < 0.02:
                 res.sample({"kind": case["kind"], "cycles": case["cycles"], "line": line[:300], "impl": out[:300]})
+        # cross-process determinism: the files load to the same screens in another interpreter with another hash seed
+        if xproc:
+            try:
+                back = cross_process_observables([x[0] for x in xproc], 1 + rng.randrange(4000000000))
+                for (fnx, wantx, casex), gotx in zip(xproc, back):
+                    res.count("class.cross-process")
+                    res.evaluations += 1
+                    d = first_diff(wantx, gotx)
+                    if d is not None:
+                        res.fail("a saved screen loads differently in another interpreter process ('%s')" % d[0], dict(casex, part="screen"),
+                                 {"field": d[0], "other_process": d[2]}, {"field": d[0], "this_process": d[1]})
+            except Exception as e:
+                res.notes.append("cross-process reload not run: %s" % e)
         # string-table codec
         for t in range(ctx.scale(120, 1500)):
             k = rng.choice([0, 1, 1, 2, 3, 5, 8])
